@@ -201,7 +201,12 @@ func Execute(t *testing.T, plan *Plan, opts Opts) *RunResult {
 	}
 	if res.Bubble.Deadlock || res.Bubble.Leftover {
 		res.Stats.Deadlocks++
-		ex.finding(Violation{Prop: "C13", Clause: "no-response", Class: "bubble-deadlock", Msg: "a request never returned (all goroutines blocked):\n" + firstLines(res.Bubble.Stacks, 60), Step: res.Stats.Steps})
+		prop, clause, what := "C13", "no-response", "a request never returned"
+		if plan.Property == "C14" {
+			prop, clause, what = "C14", "hang", "a client call never returned"
+		}
+		lib := strings.Join(rt.LibraryGoroutines(res.Bubble.Stacks), "\n\n")
+		ex.finding(Violation{Prop: prop, Clause: clause, Class: "bubble-deadlock", Msg: what + " (all goroutines of the bubble are blocked):\n" + firstLines(lib, 60), Step: res.Stats.Steps})
 	}
 	if res.Bubble.Panic != nil {
 		res.Infra = "panic in the harness: " + res.Bubble.PanicText
@@ -251,9 +256,13 @@ func (ex *executor) run() {
 	}
 	ex.log.Addf("run seed=%#x property=%s profile=%s store=%s", p.RunSeed, p.Property, p.Profile, p.Config.Store)
 
+	planHost = "dav.test"
+	if p.Config.Host != "" {
+		planHost = p.Config.Host
+	}
 	switch p.Config.Store {
 	case "", "localfs":
-		ex.fs = webdav.LocalFileSystem(w.Root)
+		ex.fs = webdav.LocalFileSystem(spellRoot(w.Root, p.Config.RootForm))
 	case "memfs":
 		ex.fs = ex.newMemFS()
 	}
@@ -301,6 +310,20 @@ func (ex *executor) run() {
 	if msg, changed := w.OutsideChanged(); changed {
 		ex.finding(Violation{Prop: "C03", Clause: "canary-changed", Class: "end-of-run", Msg: msg, Step: len(p.Steps)})
 	}
+}
+
+// spellRoot writes the served directory the way an operator might configure
+// it: clean, with a trailing slash, with a dot segment or a doubled slash.
+func spellRoot(root, form string) string {
+	switch form {
+	case "slash":
+		return root + "/"
+	case "dot":
+		return realfp.Dir(root) + "/./" + realfp.Base(root)
+	case "double":
+		return realfp.Dir(root) + "//" + realfp.Base(root) + "/"
+	}
+	return root
 }
 
 func (ex *executor) applySetup(op SetupOp) {
@@ -351,16 +374,21 @@ func validFieldValue(v string) bool {
 
 // buildRequest turns a raw step into the *http.Request net/http's server would
 // hand to the handler, by parsing the same bytes the server would read.
+// planHost is the Host header raw requests carry (set per run from the plan).
+var planHost = "dav.test"
+
 func buildRequest(st *Step) (*http.Request, string) {
 	var b bytes.Buffer
-	fmt.Fprintf(&b, "%s %s HTTP/1.1\r\nHost: dav.test\r\n", st.Method, st.Target)
+	fmt.Fprintf(&b, "%s %s HTTP/1.1\r\nHost: %s\r\n", st.Method, st.Target, planHost)
 	for _, h := range st.Headers {
 		if !validFieldValue(h[1]) {
 			return nil, "invalid header value"
 		}
 		fmt.Fprintf(&b, "%s: %s\r\n", h[0], h[1])
 	}
-	if len(st.Body) > 0 || st.Method == "PUT" || st.Method == "POST" || st.Method == "PROPPATCH" {
+	if st.Chunked && len(st.Body) > 0 {
+		b.WriteString("Transfer-Encoding: chunked\r\n")
+	} else if len(st.Body) > 0 || st.Method == "PUT" || st.Method == "POST" || st.Method == "PROPPATCH" {
 		fmt.Fprintf(&b, "Content-Length: %d\r\n", len(st.Body))
 	}
 	b.WriteString("\r\n")
@@ -413,7 +441,7 @@ func (ex *executor) serve(idx int, st *Step) *Exchange {
 	}
 	req = req.WithContext(ctx)
 
-	xc.Req = model.Request{Method: req.Method, Path: req.URL.Path, H: headerMap(req), Body: st.Body}
+	xc.Req = model.Request{Method: req.Method, Path: req.URL.Path, Host: req.Host, H: headerMap(req), Body: st.Body}
 	rec := httptest.NewRecorder()
 	func() {
 		defer func() {
